@@ -18,7 +18,7 @@ import (
 //	    written position per collection/channel) - scripts on disjoint keys commute;
 //	(d) reads a client made of its own task returned only its own records.
 var relPrio = []string{"other-root-same-task", "other-root-pattern-char-match", "other-root-prefix-related", "pattern-char-task-match",
-	"prefix-related-task", "prefix-related-collection", "prefix-related-msg", "other-collection", "other-msg", "other-task", "other-root", "same-root-other-kind", "addressed-record"}
+	"task-id-nested-path", "prefix-related-task", "prefix-related-collection", "prefix-related-msg", "other-collection", "other-msg", "other-task", "other-root", "same-root-other-kind", "addressed-record"}
 
 type concOutcome struct {
 	res []result
